@@ -266,8 +266,8 @@ def zero_divisor_cases():
 def long_input_cases():
     """very long tokens, lines and programs (a decimal literal beyond 4300 digits trips the interpreter's own limit)"""
     for digits in (6, 40, 4300, 4301, 5000):
-        for ch in "19":
-            num = ch * digits
+        for ch in "190":
+            num = ch * digits if ch != "0" else "0" * digits + "7"       # also: mostly leading zeros
             for tpl in (" LDA #{n}\n", " LDX #-{n}\n", " FDB {n}\n", " FCB 1,{n}\n", " LDA {n},X\n", "E0 EQU {n}\n", " RMB {n}\n",
                         " ORG {n}\n", " LDA #1+{n}\n", " LDA #${n}\n", " LDA #%{n}\n", " JMP [{n}]\n", " LDA {n},PCR\n", " BRA {n}\n"):
                 yield dict(kind="lines", cls="long_input", lines=[tpl.format(n=num)])
